@@ -90,6 +90,17 @@ PRINTER = PrinterVal()
 SELF = SelfVal()
 
 
+class ListVal:
+    """a list of text pieces built by the emitter (`call_args = ['context', file, '_template_uri']; call_args.append(args)`):
+    joined it gives a line with the pieces in order; a piece appended under a condition is an optional piece"""
+
+    def __init__(self, items):
+        self.items = list(items)  # Str values
+
+    def __repr__(self):
+        return "<list %s>" % ", ".join(i.text() for i in self.items)
+
+
 class Lazy:
     """a boolean combination of guard atoms held in a local (`content = bool(buffered or cached)`):
     its truth is derived from the atoms it is made of, never decided on its own"""
@@ -628,6 +639,8 @@ class Interp:
             if all(_pyconst(v) is not _NO for v in vals):
                 c = [_pyconst(v) for v in vals]
                 return Const(c if isinstance(e, ast.List) else tuple(c))
+            if isinstance(e, ast.List) and vals and all(isinstance(v, (Str, Atom)) or (isinstance(v, Const) and isinstance(v.v, str)) for v in vals) and any(isinstance(v, Str) for v in vals):
+                return ListVal([to_str(v, src(x)) for v, x in zip(vals, e.elts)])
             return Atom(self.key_of(e, env))
         if isinstance(e, (ast.Dict, ast.Set, ast.ListComp, ast.DictComp, ast.SetComp, ast.GeneratorExp, ast.Lambda, ast.Subscript, ast.Starred)):
             if isinstance(e, ast.Subscript):
@@ -716,9 +729,24 @@ class Interp:
                     b[p] = self.value(a, env)
                 t = sub.run_function(d, b)
                 return t.retval or Const(None)
+        # text pieces collected in a list
+        if isinstance(f, ast.Attribute) and f.attr in ("append", "extend") and isinstance(f.value, ast.Name) and isinstance(env.get(f.value.id), ListVal) and len(c.args) == 1:
+            v = self.value(c.args[0], env)
+            if f.attr == "append":
+                env[f.value.id] = ListVal(env[f.value.id].items + [to_str(v, src(c.args[0]))])
+                return Const(None)
+            if isinstance(v, ListVal):
+                env[f.value.id] = ListVal(env[f.value.id].items + v.items)
+                return Const(None)
         # string helpers
         if isinstance(f, ast.Attribute) and f.attr == "join" and len(c.args) == 1:
             sep = self.value(f.value, env)
+            lst = self.value(c.args[0], env) if isinstance(c.args[0], (ast.Name, ast.List)) else None
+            if isinstance(sep, Str) and sep.is_const() and isinstance(lst, ListVal):
+                out = None
+                for it in lst.items:
+                    out = it if out is None else concat(concat(out, sep), it)
+                return out if out is not None else Str([("lit", "")])
             if isinstance(sep, Str) and sep.is_const():
                 return Str([("hole", src(c.args[0]), "join" if sep.literal() else "opt")])
         if name == "repr" and len(c.args) == 1:
